@@ -46,6 +46,13 @@ def gen_cases(ck):
                       "nframes": int(ck.rng.integers(2, 5)), "field": ["drift", "random", "flow"][(i // 3) % 3], "bound_factor": 0.92,
                       "renumber": True, "cm": False, "guess_frac": 0.0, "times": "equal"})
     for i in range(8 if ck.tier == "quick" else 50):
+        # a junction jumps next to a neighbour between two frames and the user pairs it by hand
+        cases.append({"type": "series", "seed": int(ck.rng.integers(1 << 30)), "tissue": ["random", "jitter", "hex"][i % 3],
+                      "sites": int(ck.rng.integers(12, 30)), "subset": [None, 0.7][i % 2], "min_ridge": 0.01, "mobius": False, "kmin": 0, "kmax": 3,
+                      "angle": float(ck.rng.uniform(0, 6.28)), "scale": float(10.0 ** ck.rng.uniform(-1, 2)), "shift": [float(ck.rng.normal() * 5), float(ck.rng.normal() * 5)],
+                      "nframes": int(ck.rng.integers(2, 5)), "field": ["random", "affine", "flow"][i % 3], "bound_factor": 0.45, "renumber": True,
+                      "cm": bool((i // 2) % 2), "guess_frac": [0.0, 0.3][(i // 4) % 2], "guess_jump": True, "times": "equal"})
+    for i in range(8 if ck.tier == "quick" else 50):
         # tall tissues with few, widely spaced junctions lying right of the diagonal (min x > max y), moved by more than 8 % of their
         # width but less than 8 % of their height: the property's bound refers to the larger of the two extents
         cases.append({"type": "series", "seed": int(ck.rng.integers(1 << 30)), "tissue": ["hex", "jitter"][i % 2], "sites": int(ck.rng.choice([16, 20])), "subset": None,
@@ -88,6 +95,25 @@ def run_case(ck, case, reqs, pending):
         ck.count("rejected_tissue"); return
     n = case["nframes"]
     rng = np.random.default_rng(case["seed"] + 3)
+    jump = None
+    if case.get("guess_jump"):
+        # between two frames one junction jumps next to another one: its successor lies half way between that junction and the
+        # junction's own successor (nearer to it than its own successor is); the user supplies the pairing of the jumped junction
+        t_ = int(rng.integers(0, n - 1))
+        both = sorted(j for j in s.vid[t_] if j in s.vid[t_ + 1])
+        c0_, c1_ = s.coords0[t_], s.coords0[t_ + 1]
+        mv = {j: math.hypot(c1_[s.vid[t_ + 1][j]][0] - c0_[s.vid[t_][j]][0], c1_[s.vid[t_ + 1][j]][1] - c0_[s.vid[t_][j]][1]) for j in both}
+        if len(both) >= 3 and max(mv.values()) > 0:
+            w = max(both, key=lambda j: (mv[j], j))
+            wo, wn = c0_[s.vid[t_][w]], c1_[s.vid[t_ + 1][w]]
+            v = min((j for j in both if j != w), key=lambda j: (math.hypot(c0_[s.vid[t_][j]][0] - wo[0], c0_[s.vid[t_][j]][1] - wo[1]), j))
+            dx, dy = wn[0] - wo[0], wn[1] - wo[1]
+            newp = (wo[0] + 0.5 * dx - 0.05 * dy, wo[1] + 0.5 * dy + 0.05 * dx)
+            vt = s.frames_sc[t_ + 1].bm.vertices[s.vid[t_ + 1][v]]
+            vt.x, vt.y = float(newp[0]), float(newp[1])
+            s.coords0[t_ + 1][int(s.vid[t_ + 1][v])] = (float(newp[0]), float(newp[1]))
+            jump = (t_, int(s.vid[t_][v]), int(s.vid[t_ + 1][v]))
+            ck.count("a_junction_jumps_next_to_another_and_is_paired_by_the_user")
     # frames and pools are known before ForSys is built
     frames = {}
     for t, sc in enumerate(s.frames_sc):
@@ -111,6 +137,8 @@ def run_case(ck, case, reqs, pending):
                 if succ[t][v] == 0:
                     guess[t][v] = 0
                     ck.count("guesses_with_target_id_0")
+    if jump is not None and jump[1] in pool_ids[jump[0]] and jump[2] in pool_ids[jump[0] + 1]:
+        guess[jump[0]][jump[1]] = jump[2]
     seen, final = ser.simulate_cm(s.coords0, n, case["cm"])
     use_guess = any(guess[t] for t in guess)
     f = impl.quiet(fs.ForSys, frames, cm=case["cm"], **({"initial_guess": {t_: dict(g_) for t_, g_ in guess.items()}} if use_guess else {}))     # a copy: the caller's pairings stay the reference
